@@ -1209,6 +1209,12 @@ class Evaluator:
                 return V("Some", (args[1],)) if b else V("None")
             if name == "not":
                 return not b
+        if re.search(r"core::iter::sources::once_with::once_with$|core::iter::once_with$", base) and len(args) == 1:
+            return [self.apply(args[0], [], depth, node)]     # evaluated eagerly: which checks run matters here, not when
+        if re.search(r"core::iter::sources::once::once$|core::iter::once$", base) and len(args) == 1:
+            return [args[0]]
+        if re.search(r"core::iter::sources::empty::empty$|core::iter::empty$", base) and not args:
+            return []
         if base.endswith("ops::range::RangeInclusive::new") and len(args) == 2:
             return St("core::ops::range::RangeInclusive", {"start": args[0], "end": args[1]})
         if name == "contains" and len(args) == 2 and isinstance(a0, St) and a0.ty.startswith("core::ops::range::Range"):
@@ -1423,7 +1429,7 @@ class Evaluator:
             if isinstance(a0, V):
                 return list(a0.fields) if a0.name in ("Some", "Ok") else []
             return NotImplemented
-        if isinstance(a0, list) and (is_iter_fn or name in ("any", "all", "find", "position", "map", "filter", "collect", "count", "next")):
+        if isinstance(a0, list) and (is_iter_fn or name in ("any", "all", "find", "position", "map", "filter", "collect", "count", "next", "filter_map", "take", "skip", "last", "flatten")):
             return self.list_iter(name, args, depth, node)
         if name == "chain" and len(args) == 2 and isinstance(a0, (Iter, ChainIter, Sym, list)) and isinstance(args[1], (Iter, ChainIter, Sym, list)):
             mk = lambda x: Iter(x.t) if isinstance(x, Sym) else x  # noqa: E731
@@ -1553,6 +1559,32 @@ class Evaluator:
             return [x for x in xs if self.decide_bool(ap(args[1], [x]))]
         if name == "enumerate":
             return [(i, x) for i, x in enumerate(xs)]
+        if name == "filter_map":
+            out = []
+            for x in xs:
+                r = ap(args[1], [x])
+                r = self.force(r, ("Some", "None")) if isinstance(r, Sym) else r
+                if isinstance(r, V) and r.name == "Some":
+                    out.append(r.fields[0])
+            return out
+        if name == "take" and isinstance(args[1], int):
+            return xs[:args[1]]
+        if name == "skip" and isinstance(args[1], int):
+            return xs[args[1]:]
+        if name == "last":
+            return V("Some", (xs[-1],)) if xs else V("None")
+        if name == "flatten":
+            out = []
+            for x in xs:
+                if isinstance(x, list):
+                    out += x
+                elif isinstance(x, V) and x.name in ("Some", "Ok"):
+                    out += list(x.fields)
+                elif isinstance(x, V):
+                    pass
+                else:
+                    raise Abort("flatten of %r" % (x,))
+            return out
         if name == "chain":
             o = args[1]
             if isinstance(o, list):
